@@ -294,6 +294,35 @@ pub fn items(tier: Tier) -> Vec<Item> {
     // (attributes of a DISABLED variant are ignored by every derive together with the variant — a float property, `default` on
     // two fields, placeholders on a disabled unit variant all compile; the statement's rules are about variants the derive uses,
     // so such items are not part of the domain; DESIGN.md §6, out-of-domain observations)
+    // R12 malformed attribute VALUES: never a panic, never silently accepted (the statement's general clause)
+    for (lab, src) in [
+        ("crate = \"my-strum\"", "#[derive(strum::EnumString)]\n#[strum(crate = \"my-strum\")]\npub enum E { A }\n"),
+        ("crate = \"\"", "#[derive(strum::EnumIter)]\n#[strum(crate = \"\")]\npub enum E { A }\n"),
+        ("variant default_with = \"a b\"", "#[derive(strum::EnumString)]\npub enum E { #[strum(default_with = \"a b\")] A(u8) }\n"),
+        ("variant default_with = \"\"", "#[derive(strum::EnumString)]\npub enum E { #[strum(default_with = \"\")] A(u8) }\n"),
+        ("variant default_with = \"1f\"", "#[derive(strum::EnumString)]\npub enum E { #[strum(default_with = \"1f\")] A(u8) }\n"),
+        ("variant default_with = \"f()\"", "fn f() -> u8 { 0 }\n#[derive(strum::EnumString)]\npub enum E { #[strum(default_with = \"f()\")] A(u8) }\n"),
+        ("field default_with = \"a b\"", "#[derive(strum::EnumString)]\npub enum E { A { #[strum(default_with = \"a b\")] x: u8 } }\n"),
+        ("field default_with = \"\"", "#[derive(strum::EnumString)]\npub enum E { A { #[strum(default_with = \"\")] x: u8 } }\n"),
+        ("serialize = 5", "#[derive(strum::EnumString)]\npub enum E { #[strum(serialize = 5)] A }\n"),
+        ("unknown key", "#[derive(strum::Display)]\npub enum E { #[strum(foo)] A }\n"),
+        ("unknown enum-level key", "#[derive(strum::Display)]\n#[strum(foo = \"x\")]\npub enum E { A }\n"),
+        ("unquoted serialize_all", "#[derive(strum::EnumString)]\n#[strum(serialize_all = snake_case)]\npub enum E { A }\n"),
+        ("bare #[strum]", "#[derive(strum::EnumString)]\n#[strum]\npub enum E { A }\n"),
+        ("#[strum = \"x\"]", "#[derive(strum::EnumString)]\n#[strum = \"x\"]\npub enum E { A }\n"),
+        ("props(k)", "#[derive(strum::EnumProperty)]\npub enum E { #[strum(props(k))] A }\n"),
+        ("props(5 = \"x\")", "#[derive(strum::EnumProperty)]\npub enum E { #[strum(props(5 = \"x\"))] A }\n"),
+        ("parse_err_ty = 5", "fn f(_: &str) -> u8 { 0 }\n#[derive(strum::EnumString)]\n#[strum(parse_err_ty = 5, parse_err_fn = f)]\npub enum E { A }\n"),
+        ("strum_discriminants(name(5))", "#[derive(strum::EnumDiscriminants)]\n#[strum_discriminants(name(5))]\npub enum E { A }\n"),
+        ("strum_discriminants(vis(notavis))", "#[derive(strum::EnumDiscriminants)]\n#[strum_discriminants(vis(notavis))]\npub enum E { A }\n"),
+        ("to_string = \"}\" on a unit variant", "#[derive(strum::Display)]\npub enum E { #[strum(to_string = \"}\")] A }\n"),
+        ("to_string = \"{a b}\"", "#[derive(strum::Display)]\npub enum E { #[strum(to_string = \"{a b}\")] A { a: u8 } }\n"),
+        ("to_string = \"{1x}\"", "#[derive(strum::Display)]\npub enum E { #[strum(to_string = \"{1x}\")] A(u8) }\n"),
+    ] {
+        let derive = src.split("strum::").nth(1).unwrap_or("").split(')').next().unwrap_or("").to_string();
+        add("malformed-value", &derive, format!("{}: {}", derive, lab), src.to_string(), false);
+    }
+    add("malformed-value", "EnumString", "control: default_with names a function".into(), "fn f() -> u8 { 0 }\n#[derive(strum::EnumString)]\npub enum E { #[strum(default_with = \"f\")] A(u8), B { #[strum(default_with = \"f\")] x: u8 } }\n".into(), true);
     // R11': unsupported literal not first / in the third group / negative float
     for l in ["1.5", "'c'", "b\"bs\"", "-2.5"] {
         add("prop-literal", "EnumProperty", format!("EnumProperty: props(a = 1, b = true, k = {}) last of three", l), en("EnumProperty", "", "", &place(&format!("#[strum(props(a = 1, b = true, k = {}))] X", l), 1)), false);
